@@ -762,6 +762,100 @@ theorem run_filter (fp : Foot) (cap : Nat) (i : Nat) (σ : List Nat) :
       simp only [List.filter_cons, e, decide_false, runSched_cons, tick_stopped fp cap c j this.1 this.2]
       simpa using ih c st
 
+/-! ## The stream part of a thread only moves by `Rt.step` -/
+
+theorem run_append (cap : Nat) (l1 l2 : List (Op D)) (s : St D) :
+    run cap s (l1 ++ l2) = (match run cap s l1 with | none => none | some s1 => run cap s1 l2) := by
+  induction l1 generalizing s with
+  | nil => rfl
+  | cons o l ih =>
+    simp only [List.cons_append, run]
+    cases step cap s o with
+    | none => rfl
+    | some s1 => exact ih s1
+
+theorem locRun_stream (cap : Nat) (p : Proc) (t t' : TLoc D) (f : LocOp D) (h : f.run cap p t = some t') :
+    ∃ ops : List (Op D), ops.length ≤ 1 ∧ run cap t.s ops = some t'.s := by
+  cases f with
+  | initTid tid =>
+    by_cases h0 : tid = 0 <;> simp [LocOp.run, h0] at h
+    subst h; exact ⟨[], by simp, rfl⟩
+  | buf op =>
+    simp only [LocOp.run, Option.map_eq_some_iff] at h
+    obtain ⟨s', hs, rfl⟩ := h
+    exact ⟨[op], by simp, by simp [run, hs]⟩
+  | populate =>
+    simp only [LocOp.run, Option.some.injEq] at h
+    subst h; exact ⟨[], by simp, rfl⟩
+  | metaSet k v =>
+    by_cases hf : t.s.finished = true <;> by_cases hr : t.s.ready = true <;>
+      simp [LocOp.run, hf, hr] at h
+    subst h; exact ⟨[], by simp, rfl⟩
+  | cpu i ph =>
+    by_cases hr : t.s.ready = true <;> simp [LocOp.run, hr] at h
+    subst h; exact ⟨[], by simp, rfl⟩
+  | rank r n =>
+    by_cases hr : t.s.ready = true <;> simp [LocOp.run, hr] at h
+    subst h; exact ⟨[], by simp, rfl⟩
+  | guard =>
+    by_cases hf : t.s.finished = true <;> by_cases hr : t.s.ready = true <;>
+      simp [LocOp.run, hf, hr] at h
+    subst h; exact ⟨[], by simp, rfl⟩
+  | finiMeta =>
+    by_cases hf : t.s.finished = true <;> by_cases hr : t.s.ready = true <;>
+      simp [LocOp.run, hf, hr] at h
+    subst h; exact ⟨[], by simp, rfl⟩
+
+theorem tickEff_stream (fp : Foot) (cap : Nat) (g : Glob) (x : Thr D) :
+    ∃ ops : List (Op D), run cap x.t.s ops = some (tickEff fp cap g x).x.t.s := by
+  cases hd : x.dead with
+  | true => rw [tickEff_dead fp cap g x hd]; exact ⟨[], rfl⟩
+  | false =>
+    cases p : x.pend with
+    | nil =>
+      cases k : x.calls with
+      | nil => rw [tickEff_stopped fp cap g x p k]; exact ⟨[], rfl⟩
+      | cons k1 ks => rw [tickEff_call fp cap g x hd p k1 ks k]; exact ⟨[], rfl⟩
+    | cons s r =>
+      rw [tickEff_step fp cap g x hd s r p]
+      cases s with
+      | st op =>
+        cases op with
+        | load e =>
+          cases e with
+          | none => exact ⟨[], rfl⟩
+          | some v => simp only [stepEff]; split <;> exact ⟨[], rfl⟩
+        | store v => exact ⟨[], rfl⟩
+        | cas a b => simp only [stepEff]; split <;> exact ⟨[], rfl⟩
+        | unknown => exact ⟨[], rfl⟩
+      | procWrite m src => exact ⟨[], rfl⟩
+      | loc f =>
+        simp only [stepEff]
+        cases hrun : f.run cap g.proc x.t with
+        | none => exact ⟨[], rfl⟩
+        | some t' =>
+          obtain ⟨ops, _, h⟩ := locRun_stream cap g.proc x.t t' f hrun
+          exact ⟨ops, h⟩
+      | fsObs => exact ⟨[], rfl⟩
+      | fsJson => exact ⟨[], rfl⟩
+
+theorem stream_run (fp : Foot) (cap : Nat) (i : Nat) (σ : List Nat) :
+    ∀ c : Cfg D, ∃ ops : List (Op D), run cap (c.th i).t.s ops = some ((runSched fp cap c σ).th i).t.s := by
+  induction σ with
+  | nil => intro c; exact ⟨[], rfl⟩
+  | cons j σ ih =>
+    intro c
+    rw [runSched_cons]
+    obtain ⟨ops2, h2⟩ := ih (tick fp cap c j)
+    by_cases e : i = j
+    · subst e
+      obtain ⟨ops1, h1⟩ := tickEff_stream fp cap c.g (c.th i)
+      refine ⟨ops1 ++ ops2, ?_⟩
+      rw [run_append, h1]
+      simpa using h2
+    · refine ⟨ops2, ?_⟩
+      simpa [upd_other _ _ e] using h2
+
 /-! ## Concrete configurations (for the non-vacuity examples and the driver) -/
 
 /-- `N` threads, thread `i` about to make the single call `k i`. -/
